@@ -231,6 +231,9 @@ pub struct Failure {
 }
 
 pub type Oracle<C> = Arc<dyn Fn(&C, &Rec, &Ctx) -> Result<(), String> + Send + Sync>;
+/// optional post-pass after proptest's shrinking: given the shrunk case and a "still fails?" predicate,
+/// return a smaller failing case (e.g. keep only the offending element of a batch)
+pub type Minimiser<C> = Arc<dyn Fn(&C, &dyn Fn(&C) -> bool) -> C + Send + Sync>;
 
 pub struct PartDef {
     pub name: &'static str,
@@ -250,6 +253,22 @@ where
     C: Serialize + DeserializeOwned + std::fmt::Debug + Clone + Send + 'static,
     SF: Fn(&Ctx) -> BoxedStrategy<C> + Send + Sync + 'static,
 {
+    part_min(name, cases_quick, cases_thorough, strat, oracle, |c: &C, _: &dyn Fn(&C) -> bool| c.clone())
+}
+
+pub fn part_min<C, SF>(
+    name: &'static str,
+    cases_quick: u64,
+    cases_thorough: u64,
+    strat: SF,
+    oracle: impl Fn(&C, &Rec, &Ctx) -> Result<(), String> + Send + Sync + 'static,
+    minimise: impl Fn(&C, &dyn Fn(&C) -> bool) -> C + Send + Sync + 'static,
+) -> PartDef
+where
+    C: Serialize + DeserializeOwned + std::fmt::Debug + Clone + Send + 'static,
+    SF: Fn(&Ctx) -> BoxedStrategy<C> + Send + Sync + 'static,
+{
+    let minimise: Minimiser<C> = Arc::new(minimise);
     let oracle: Oracle<C> = Arc::new(oracle);
     let o1 = oracle.clone();
     let o2 = oracle;
@@ -257,7 +276,7 @@ where
         name,
         run: Box::new(move |ctx, ev| {
             let cases = ctx.pick(cases_quick, cases_thorough);
-            run_sharded(ctx, ev, name, cases, &strat, &o1);
+            run_sharded(ctx, ev, name, cases, &strat, &o1, &minimise);
         }),
         replay: Box::new(move |v, rec, ctx| {
             let c: C = serde_json::from_value(v.clone()).map_err(|e| format!("replay file does not hold a case of part {}: {}", name, e))?;
@@ -275,7 +294,7 @@ pub fn custom_part(
     PartDef { name, run: Box::new(run), replay: Box::new(replay) }
 }
 
-fn run_sharded<C, SF>(ctx: &Ctx, ev: &mut Evidence, part: &'static str, cases: u64, strat: &SF, oracle: &Oracle<C>)
+fn run_sharded<C, SF>(ctx: &Ctx, ev: &mut Evidence, part: &'static str, cases: u64, strat: &SF, oracle: &Oracle<C>, minimise: &Minimiser<C>)
 where
     C: Serialize + DeserializeOwned + std::fmt::Debug + Clone + Send + 'static,
     SF: Fn(&Ctx) -> BoxedStrategy<C> + Send + Sync,
@@ -346,6 +365,19 @@ where
     failures.sort_by_key(|f| f.0);
     ev.absorb_part(part, &merged);
     if let Some((shard, case, msg)) = failures.into_iter().next() {
+        let case = {
+            let still_fails = |c: &C| {
+                let rec = Rec::new();
+                rec.freeze();
+                oracle(c, &rec, ctx).is_err()
+            };
+            let smaller = minimise(&case, &still_fails);
+            if still_fails(&smaller) {
+                smaller
+            } else {
+                case
+            }
+        };
         // re-evaluate the shrunk case once to get the message that belongs to it
         let rec = Rec::new();
         let msg2 = match oracle(&case, &rec, ctx) {
